@@ -13,6 +13,7 @@ from ..core.astutil import u, dotted, call_name, kwarg, parent_map, walk_local
 from ..core.loader import AnchorError, Undecided
 from ..core.report import Ctx
 from ..core import cfg as cfgmod
+from .c34 import normalise  # behaviour-preserving rewrites (guard-continue folding, one-level helper inlining)
 
 FILE = "src/porepy/utils/array_operations.py"
 
@@ -33,7 +34,7 @@ META = {
     "rule_text": "one obligation per typed gather/scatter/bincount/compare site, per consolidation arm, per append, per guard",
     "trusted_base": ["python ast", "sa.core (loader, astutil, cfg)",
                      "numpy semantics of unique/bincount/where/fancy indexing (table in this module)"],
-    "assumptions": ["parameters `coords` and `values` of add are parallel (values[..., k] belongs to coords[k])",
+    "assumptions": ["the normaliser applied to a copy of each anchored function (guard-continue -> if/else, one level of same-module helper inlining incl. early returns, c34.normalise) preserves behaviour", "parameters `coords` and `values` of add are parallel (values[..., k] belongs to coords[k])",
                     "intersect_sets returns (unique ia, unique ib, a_in_b mask, per-a list of b indices) - its return "
                     "statement is re-checked for that shape on every run",
                     "the last axis of 2-d arrays is the indexed one"],
@@ -563,6 +564,15 @@ def _nodup_guard(test: ast.expr, it: Interp, uspace) -> str:
         if isinstance(cmp_, ast.Compare) and isinstance(cmp_.ops[0], ast.Eq) and isinstance(cmp_.comparators[0], ast.Constant) \
                 and cmp_.comparators[0].value == 1:
             return "yes"
+    if t and t[0] == "bool" and (not t[2]) and t[1][0] == "any" and t[1][1] == uspace and t[1][3]:
+        try:
+            cmp_ = ast.parse(t[1][2], mode="eval").body
+        except SyntaxError:
+            cmp_ = None
+        if isinstance(cmp_, ast.Compare) and isinstance(cmp_.comparators[0], ast.Constant):
+            k, op = cmp_.comparators[0].value, cmp_.ops[0]
+            if (isinstance(op, ast.Gt) and k == 1) or (isinstance(op, ast.GtE) and k == 2) or (isinstance(op, ast.NotEq) and k == 1):
+                return "yes"
     if isinstance(test, ast.Compare) and len(test.ops) == 1 and isinstance(test.ops[0], ast.Eq):
         l, r = test.left, test.comparators[0]
         if isinstance(r, ast.Constant) and r.value == 1 and isinstance(l, ast.Call) and call_name(l) == "max":
@@ -660,6 +670,8 @@ def _analyse_add(ctx: Ctx, mod, fn: ast.FunctionDef) -> None:
 
     # consolidated-values variable = base of the appended values selection
     vnew = appends["self._values"][0].value.args[0].elts[1]
+    if isinstance(vnew, ast.Name) and len(it.assign_types.get(vnew.id, [])) == 1:
+        vnew = it.assign_types[vnew.id][0][0].value  # a temporary holding the selected columns
     cons = vnew.value.id if isinstance(vnew, ast.Subscript) and isinstance(vnew.value, ast.Name) else None
     if cons is None:
         raise Undecided(f"{q}: appended values are not `<name>[:, mask]`")
@@ -686,10 +698,11 @@ def _analyse_add(ctx: Ctx, mod, fn: ast.FunctionDef) -> None:
             _check_overwrite_def(ctx, mod, q, it, pm, fn, s, cons)
 
     # --- column stores into the consolidated array (duplicate arm) ---------------------------
+    cons_names = {cons} | {s_.value.id for s_, _ in defs if isinstance(s_.value, ast.Name)}
     n_dup = 0
     for s, tg, tsel, tval, aug in it.stores:
         base = u(tg.value)
-        if base == cons:
+        if base in cons_names:
             n_dup += 1
             ok_space = bool(tsel and tsel[0] == "col" and tsel[1] == "U" and tval and tval[0] == "col"
                             and tval[1] == "A" and tval[4] == ("U", tsel[3]))
@@ -768,6 +781,12 @@ def _aligned(sel_t, sel_v):
 def _check_overwrite_def(ctx, mod, q, it: Interp, pm, fn, s: ast.Assign, cons: str) -> None:
     """A definition of the consolidated values in the overwrite arm."""
     v = s.value
+    if isinstance(v, ast.Name):
+        # alias of an array built under another name (e.g. after inlining a helper): check that array's definitions
+        for s2, _t in it.assign_types.get(v.id, []):
+            if s2 is not s:
+                _check_overwrite_def(ctx, mod, q, it, pm, fn, s2, cons)
+        return
     if isinstance(v, ast.Subscript):
         idx, _ = it.column_index(v)
         ti = it.ev(idx) if idx is not None else None
@@ -917,8 +936,9 @@ def _sweep(ctx: Ctx) -> None:
 def run(ctx: Ctx) -> None:
     mod = ctx.repo.module(FILE)
     _check_intersect_shape(mod)
-    add = mod.func("SparseNdArray.add")
-    get = mod.func("SparseNdArray.get")
+    scls = mod.cls("SparseNdArray")
+    add = normalise(mod, mod.func("SparseNdArray.add"), cls=scls, exclude={"intersect_sets"})
+    get = normalise(mod, mod.func("SparseNdArray.get"), cls=scls, exclude={"intersect_sets"})
     _analyse_add(ctx, mod, add)
     _analyse_get(ctx, mod, get)
     # storage is only written by __init__ and add
@@ -933,6 +953,20 @@ def run(ctx: Ctx) -> None:
                         base = t.value if isinstance(t, ast.Subscript) else t
                         if dotted(base) in ("self._values", "self._coords"):
                             writers.add(f.name)
+    # private helpers of add (called through self.<name> from add only) count as part of add
+    calls_of = {f.name: {c.func.attr for c in walk_local(f) if isinstance(c, ast.Call) and isinstance(c.func, ast.Attribute)
+                         and isinstance(c.func.value, ast.Name) and c.func.value.id == "self"}
+                for f in cls.body if isinstance(f, ast.FunctionDef)}
+    helpers = set()
+    todo = ["add"]
+    while todo:
+        n = todo.pop()
+        for c in calls_of.get(n, ()):
+            if c in calls_of and c not in helpers and c not in ("add", "get"):
+                helpers.add(c)
+                todo.append(c)
+    helpers = {h for h in helpers if all(h not in cs or n in helpers | {"add"} for n, cs in calls_of.items())}
+    writers -= helpers
     ctx.check("R3", writers <= {"__init__", "add"}, mod, "SparseNdArray", cls,
               f"storage arrays are written only by __init__ and add; writers found: {sorted(writers)}",
               construct="writers of _coords/_values", facts={"writers": sorted(writers)})
